@@ -76,7 +76,9 @@ def _load_dry_config_file(orchestrator: "Orchestrator", config_file: str, verbos
         sys.exit(2)
 
     with config_path.open("r", encoding="utf-8") as f:
-        config: dict[str, Any] = yaml.safe_load(f)
+        loaded = yaml.safe_load(f)
+    # An empty or comment-only file parses to None: nothing configured
+    config: dict[str, Any] = loaded if isinstance(loaded, dict) else {}
 
     try:
         dry_config = config["dry"]
